@@ -2,19 +2,20 @@ SPECIFICATION Spec
 CONSTANTS
  Ids = {"a", "b"}
  MaxB = 2
- BatchShapes <- Shapes3
+ BatchShapes <- Shapes2
  Writers = {w1}
  Safe = TRUE
  KeepN = 1
- MaxEp = 8
- MaxSid = 5
+ MaxEp = 7
+ MaxSid = 4
  WithReader = FALSE
  WithCopy = FALSE
  WithMerger = TRUE
  WithPurge = TRUE
- WithMemMerge = TRUE
+ WithMemMerge = FALSE
  MaxMergeInputs = 2
+ AsyncRelease = FALSE
 CONSTRAINT Bound
-INVARIANTS RootIsReplay UniqueLive HeldAreReplays EveryBoltIsAState Durable NewestLoads BoltFilesOnDisk RootFilesOnDisk NoOrphansWhenQuiescent
+INVARIANTS RootIsReplay UniqueLive HeldAreReplays EveryBoltIsAState Durable NewestLoads BoltFilesOnDisk RootFilesOnDisk NoOrphansWhenQuiescent RollbackOK
 PROPERTIES LayoutStutters ReaderStable
 CHECK_DEADLOCK FALSE
